@@ -71,6 +71,11 @@ pub fn explore_config(case: &MpcCase, cap: Option<usize>, bound: u32, seed: u64,
     explore_config_with(case, cap, bound, seed, budget, &|r| oracle(case, r))
 }
 
+thread_local! {
+    /// whether the next exploration started from this thread also enumerates spurious polls
+    pub static SPURIOUS: std::cell::Cell<bool> = const { std::cell::Cell::new(false) };
+}
+
 pub fn explore_config_with(case: &MpcCase, cap: Option<usize>, bound: u32, seed: u64, budget: &Budget, check: &(dyn Fn(&RunResult<Vec<bool>>) -> Result<(), String> + Sync)) -> ConfigResult {
     let cfg = ExecCfg::new(case.n(), seed).cap(cap);
     let ex = Explorer {
@@ -85,7 +90,7 @@ pub fn explore_config_with(case: &MpcCase, cap: Option<usize>, bound: u32, seed:
         budget,
         capped: Default::default(),
         max_failures: 20,
-        spurious: case.n() == 2 || std::env::var("PVX_TIER").map(|t| t == "thorough").unwrap_or(false),
+        spurious: SPURIOUS.with(|s| s.get()),
     };
     ex.explore();
     use std::sync::atomic::Ordering::Relaxed;
@@ -105,8 +110,6 @@ pub fn explore_config_with(case: &MpcCase, cap: Option<usize>, bound: u32, seed:
 }
 
 pub fn main(tier: Tier, seed: u64) -> i32 {
-    // SAFETY: set before any worker thread exists
-    unsafe { std::env::set_var("PVX_TIER", tier.name()) };
     let mut rep = Report::new("C12", tier, seed, "model_checking");
     if let Err(e) = super::selftest::determinism(seed) {
         rep.machinery(e);
@@ -115,13 +118,14 @@ pub fn main(tier: Tier, seed: u64) -> i32 {
     // (n, p_eval, capacity, bound)
     let plan: Vec<(usize, usize, Option<usize>, u32)> = if tier.is_thorough() {
         vec![
-            (2, 0, Some(1), 3), (2, 1, Some(1), 2), (2, 0, Some(2), 2), (2, 0, None, 2), (2, 1, None, 2),
-            (3, 0, Some(1), 1), (3, 1, Some(1), 1), (3, 2, Some(1), 1), (3, 0, Some(2), 1), (3, 1, None, 1),
-            (4, 0, Some(1), 1), (4, 3, None, 1),
+            // bound + 100 = spurious polls are part of the deviation alphabet
+            (2, 0, Some(1), 3), (2, 1, Some(1), 102), (2, 0, Some(2), 102), (2, 0, None, 2), (2, 1, None, 102),
+            (3, 0, Some(1), 101), (3, 1, Some(1), 1), (3, 2, Some(1), 101), (3, 0, Some(2), 1), (3, 1, None, 101),
+            (4, 0, Some(1), 1), (4, 3, None, 101),
             (3, 0, Some(1), 2),
         ]
     } else {
-        vec![(2, 0, Some(1), 2), (2, 1, Some(1), 1), (2, 0, Some(2), 1), (2, 1, None, 1), (3, 1, Some(1), 1)]
+        vec![(2, 0, Some(1), 2), (2, 1, Some(1), 101), (2, 0, Some(2), 101), (2, 1, None, 101), (3, 1, Some(1), 1)]
     };
     let budget = Budget::new(if tier.is_thorough() { 1500.0 } else { 50.0 });
     let mut total_states = 0u64;
@@ -135,6 +139,9 @@ pub fn main(tier: Tier, seed: u64) -> i32 {
     let mut conformance_paths = 0u64;
     let mut skeleton_reports = vec![];
     for (n, p_eval, cap, bound) in plan {
+        let spurious = bound >= 100;
+        let bound = bound % 100;
+        SPURIOUS.with(|s| s.set(spurious));
         if budget.exhausted() {
             all_exhaustive = false;
             configs.push(json!({"config": format!("n{n}/e{p_eval}/cap{cap:?}"), "bound": bound, "skipped": "wall cap reached before this configuration"}));
@@ -217,7 +224,7 @@ pub fn main(tier: Tier, seed: u64) -> i32 {
             rep.machinery(format!("{}: exploration was vacuous (one observation history)", r.name));
         }
         configs.push(json!({
-            "config": r.name, "bound_completed": if r.capped { r.bound.saturating_sub(1) } else { r.bound }, "bound_attempted": r.bound,
+            "config": r.name, "spurious_polls": spurious, "bound_completed": if r.capped { r.bound.saturating_sub(1) } else { r.bound }, "bound_attempted": r.bound,
             "schedules": r.schedules, "states": r.states, "transitions": r.transitions, "choice_points": r.choice_points,
             "pruned_choice_points": r.pruned, "max_enabled": r.max_enabled, "distinct_observation_histories": r.distinct_histories, "cap_hit": r.capped
         }));
@@ -238,7 +245,7 @@ pub fn main(tier: Tier, seed: u64) -> i32 {
             );
         }
         if rep.samples.len() < 4 {
-            rep.sample(json!({"config": r.name, "example_schedule": "default policy with deviations", "deviation_kinds": ["Swap(k): take k-th enabled action", "Starve(a): postpone a until nothing else is enabled", "Spurious(p): poll party p although it was not woken (n=2 in quick, all n in thorough)"], "schedules": r.schedules}));
+            rep.sample(json!({"config": r.name, "example_schedule": "default policy with deviations", "deviation_kinds": ["Swap(k): take k-th enabled action", "Starve(a): postpone a until nothing else is enabled", "Spurious(p): poll party p although it was not woken (in the configurations marked spurious_polls)"], "schedules": r.schedules}));
         }
     }
     // ---- shape sweep: the invariants on many configurations under a few global policies --------
@@ -303,7 +310,7 @@ pub fn main(tier: Tier, seed: u64) -> i32 {
     rep.rule = "all schedules with <= bound deviations (swap / starve / spurious poll) from the default policy on the real engine, per (n, p_eval, capacity); states = distinct execution states (per-party observation-history hashes + queue lengths + woken/finished flags + starved set) at explored choice points; transitions = scheduler actions executed; every explored schedule is an execution of the implementation itself (traces_validated_against_impl = schedules)".into();
     rep.assumptions = vec![
         "per-pair FIFO reliable channels".into(),
-        "spurious polls of an idle party are deviations like any other (n=2 in quick, every n in thorough)".into(),
+        "spurious polls of an idle party are part of the deviation alphabet in the configurations marked spurious_polls".into(),
         "pruning: two executions with equal state key have equal futures under the memoryless default policy".into(),
     ];
     rep.finish()
